@@ -9,12 +9,21 @@ runs the real `_handle_parallel_process` in a thread with strict hand-off (the
 parent's `send` returns only when the worker is blocked in `recv` again or has
 exited), so execution is deterministic.  Messages are passed by reference, not
 pickled.  OS-level reaping is outside the model.
+
+Pipe capacity: a pipe holds a bounded number of bytes, so a `send` of a large
+result may block until the other side reads.  With RENDEZVOUS = True the
+worker->parent direction has capacity 0 (the worst case of "bounded"): the
+worker's `send` returns only when the parent has received the message, and a
+`join` on a worker that is blocked sending is reported as HANG (the classic
+join-before-drain deadlock).  With RENDEZVOUS = False the pipe is unbounded.
+Code that is correct for every message size must pass under both.
 """
 import queue
 import threading
 
 import vivarium.core.process as vp
 
+RENDEZVOUS = False  # worker->parent pipe has capacity 0 (see above)
 WORKERS = []        # every FakeProcess created since the last reset()
 EVENTS = []         # ('send'|'recv'|'hang'|..., ...)
 
@@ -36,6 +45,8 @@ class _Shared:
         self.commands = []
         self.closed = False
         self.thread = None
+        self.blocked_in_send = False
+        self.drained = threading.Event()
 
 
 class ParentConn:
@@ -49,6 +60,11 @@ class ParentConn:
             raise BrokenPipeError('worker has exited (pipe closed)')
         sh.commands.append(obj[0])
         sh.sent_to_child += 1
+        if sh.blocked_in_send:
+            # the worker is blocked sending an earlier result: the command
+            # waits in the pipe until the parent has read that result
+            sh.to_child.put(obj)
+            return
         sh.idle.clear()
         sh.to_child.put(obj)
         while not sh.idle.wait(timeout=2):
@@ -65,7 +81,18 @@ class ParentConn:
             EVENTS.append(('hang', 'parent recv with nothing sent'))
             raise Hang('HANG: parent recv() with no message in the pipe')
         sh.received_by_parent += 1
-        return sh.to_parent.get()
+        obj = sh.to_parent.get()
+        if sh.blocked_in_send:
+            # release the worker and wait until it blocks again
+            sh.idle.clear()
+            sh.drained.set()
+            while not sh.idle.wait(timeout=2):
+                if sh.thread is None or not sh.thread.is_alive():
+                    break
+            if sh.child_exc is not None:
+                exc, sh.child_exc = sh.child_exc, None
+                raise exc
+        return obj
 
     def close(self):
         pass
@@ -76,11 +103,21 @@ class ChildConn:
         self.sh = sh
 
     def send(self, obj):
-        self.sh.sent_to_parent += 1
-        self.sh.to_parent.put(obj)
+        sh = self.sh
+        sh.sent_to_parent += 1
+        sh.to_parent.put(obj)
+        if RENDEZVOUS:
+            sh.drained.clear()
+            sh.blocked_in_send = True
+            sh.idle.set()               # control goes back to the parent
+            sh.drained.wait()
+            sh.blocked_in_send = False
 
     def recv(self):
-        self.sh.idle.set()
+        if self.sh.to_child.empty():
+            self.sh.idle.set()
+        # else: a command was queued while this worker was blocked sending;
+        # it keeps running (the parent is waiting for it to block again)
         return self.sh.to_child.get()
 
     def close(self):
@@ -116,6 +153,10 @@ class FakeProcess:
 
     def join(self, timeout=None):
         if not self.sh.done.is_set():
+            if self.sh.blocked_in_send:
+                EVENTS.append(('hang', 'join on a worker blocked sending'))
+                raise Hang('HANG: join() on a worker that is blocked sending '
+                           'a result the parent has not received (full pipe)')
             EVENTS.append(('hang', 'join on a live worker'))
             raise Hang('HANG: join() on a worker that was not told to stop')
         self.thread.join()
@@ -173,6 +214,7 @@ def reset():
     for w in WORKERS:
         if w.started and not w.sh.done.is_set():
             try:
+                w.sh.drained.set()
                 w.sh.to_child.put(('end', None, None))
                 w.thread.join(timeout=2)
             except Exception:
